@@ -200,7 +200,7 @@ theorem gstep_eq_pstep (kind : Kind) (h : Nat → Nat) (ps : PState) (s : State)
       (cases PTable.equal _ (ps.get t) (ps.get u) <;> rfl)
   | notEqual t u =>
     simp only [gstep, pstep, hav, Bool.not_true, Bool.false_eq_true, if_false]
-    cases kind <;> simp only [gEqual, gen_map_equal, gen_set_equal, Option.map_map] <;>
+    cases kind <;> simp only [gen_map_notEqual, gen_set_notEqual, Option.map_map] <;>
       (cases PTable.equal _ (ps.get t) (ps.get u) <;> rfl)
   | assignSelf t =>
     have e : ps.set t (ps.get t) = ps := by cases t <;> rfl
